@@ -180,10 +180,17 @@ func RunRaceProng(o CheckOptions, e Engine, runs int, workDir string) (finds []*
 		fmt.Fprintln(os.Stderr, "tabsim: HARNESS TROUBLE race prong requested but TABSIM_RACE is not set")
 		return nil, stats, true
 	}
-	workers := 8
+	// many short-lived processes: a race on lazily initialised package state can
+	// only show on the first use in a process, so each process executes about a
+	// dozen scripts and eight processes run at a time
+	workers := runs / 12
+	if workers < 8 {
+		workers = 8
+	}
 	if workers > runs {
 		workers = runs
 	}
+	sem := make(chan struct{}, 8)
 	type wres struct {
 		out, errOut string
 		code        int
@@ -199,6 +206,8 @@ func RunRaceProng(o CheckOptions, e Engine, runs int, workDir string) (finds []*
 		wg.Add(1)
 		go func(k int) {
 			defer wg.Done()
+			sem <- struct{}{}
+			defer func() { <-sem }()
 			procs := 4
 			if k%2 == 1 {
 				procs = 16
